@@ -150,7 +150,7 @@ def register(R: Registry):
         from swcgeom.core.tree import Tree
 
         t, h = v["self"], handles(v)
-        if h is None or h.cls_ is not Tree.Node or h.fixed.get("attach") is not t or h.fixed.get("names") is not t.fields["names"]:
+        if not X.is_list_of(h, Tree.Node, attach=t, names=t.fields["names"]):
             return False
         lo, st, cnt = slice_positions(o["key"], nof(t))
         k = qj("k")
@@ -458,7 +458,7 @@ def register_path(R, path_obj):
 
     def slice_post(E, v, o):
         p, h = v["self"], handles(v)
-        if h is None or h.cls_ is not Path.Node or h.fixed.get("attach") is not p or h.fixed.get("names") is not p.fields["names"]:
+        if not X.is_list_of(h, Path.Node, attach=p, names=p.fields["names"]):
             return False
         lo, st, cnt = slice_positions(o["key"], pidx(p).nz())
         k = qj("k")
@@ -529,7 +529,7 @@ def register_path(R, path_obj):
     # ------------------------------------------------------------------ Path.__iter__
     def iter_post(E, v, o):
         p, h = v["self"], handles(v)
-        if h is None or h.cls_ is not Path.Node or h.fixed.get("attach") is not p or h.fixed.get("names") is not p.fields["names"]:
+        if not X.is_list_of(h, Path.Node, attach=p, names=p.fields["names"]):
             return False
         k, n = qj("k"), pidx(p).nz()
         return z3.And(zint(h.n) == n, z3.ForAll([k], z3.Implies(z3.And(k >= 0, k < n), z3.Select(h.col("idx"), k) == k)))
@@ -859,9 +859,9 @@ def register_branch(R, path_obj):
     def pairs_post(E, v, o):
         br, res = v["self"], v["result"]
         h = X._handles_of(res)
-        if not (isinstance(res, Obj) and res.cls is Compartments) or h is None or h.cls_ is not Branch.Compartment or h.fixed.get("attach") is not br:
+        if not (isinstance(res, Obj) and res.cls is Compartments) or not X.is_list_of(h, Branch.Compartment, attach=br):
             return False
-        if "idx" not in h.vecs or h.vecs["idx"][0] != (2,):
+        if not X.has_vec(h, "idx", (2,)):
             return False
         n, k = pidx(br).nz(), qj("k")
         cnt = z3.If(n >= 1, n - 1, z3.IntVal(0))
@@ -956,7 +956,7 @@ def register_branch(R, path_obj):
 
         t, P, C = (E.spec_extra[x] for x in ("tree", "P", "C"))
         h = X._handles_of(v["self"])
-        if h is None or h.cls_ is not Tree.Compartment or h.fixed.get("attach") is not t or "idx" not in h.vecs:
+        if not X.is_list_of(h, Tree.Compartment, attach=t) or not X.has_vec(h, "idx", (2,)):
             return False
         k, m = qj("k"), P.nz()
         names_ok = v["self"].fields.get("names") == get_names()  # the owner's names when there is a first compartment (they are the default here), the default otherwise
@@ -1081,7 +1081,7 @@ def register_tree(R):
     # ------------------------------------------------------------------ Tree.__iter__
     def iter_post(E, v, o):
         t, h = v["self"], handles(v)
-        if h is None or h.cls_ is not Tree.Node or h.fixed.get("attach") is not t or h.fixed.get("names") is not t.fields["names"]:
+        if not X.is_list_of(h, Tree.Node, attach=t, names=t.fields["names"]):
             return False
         k, n = qj("k"), nof(t)
         return z3.And(zint(h.n) == n, z3.ForAll([k], z3.Implies(z3.And(k >= 0, k < n), z3.Select(h.col("idx"), k) == k)))
@@ -1128,9 +1128,9 @@ def register_tree(R):
         def f(E, v, o):
             t, res = v["self"], v["result"]
             h = X._handles_of(res)
-            if not (isinstance(res, Obj) and res.cls is Compartments) or h is None or h.cls_ is not Tree.Compartment or h.fixed.get("attach") is not t:
+            if not (isinstance(res, Obj) and res.cls is Compartments) or not X.is_list_of(h, Tree.Compartment, attach=t):
                 return False
-            if "idx" not in h.vecs or h.vecs["idx"][0] != (2,):
+            if not X.has_vec(h, "idx", (2,)):
                 return False
             n, k = nof(t), qj("k")
             pid, idc = col(t, "pid").arr, col(t, "id").arr
@@ -1181,10 +1181,10 @@ def register_tree(R):
             idc, pidc = col(t, "id").arr, col(t, "pid").arr
             me = z3.Select(idc, z3.If(i < 0, i + n, i))
             h = handles(v)
-            if h is None or h.cls_ is not Tree.Node:
+            if not X.is_list_of(h, Tree.Node):
                 return False
             if which == "handles-on-this-tree":
-                return h.fixed.get("attach") is t and h.fixed.get("names") is t.fields["names"]
+                return X.is_list_of(h, Tree.Node, attach=t, names=t.fields["names"])
             m, idx = zint(h.n), h.col("idx")
             k, k2, r = qj("k"), qj("k2"), qj("r")
             if which == "every-handle-is-a-row-naming-the-wrapped-row's-id-as-parent":
